@@ -1004,11 +1004,20 @@ def _is_twin(joblib, a, b):
 
 
 def run(ctx):
+    if ctx.replay and ctx.replay.get("case", {}).get("kind") == "poison-probe":
+        from .. import poison_probe
+        res = Result()
+        res.rule = "replay: the unpicklable-component probe is re-run"
+        poison_probe.run_hash(res, core.use_repo())
+        return res
     if ctx.replay:
         case = ctx.replay.get("case", {})
         only = [case["desc"]] + ([case["other"]] if "other" in case else [])
         return _explore(ctx, 0, "replay", only=only)
-    return _explore(ctx, 6000 if ctx.thorough else 420, "main")
+    res = _explore(ctx, 6000 if ctx.thorough else 420, "main")
+    from .. import poison_probe
+    poison_probe.run_hash(res, core.use_repo())
+    return res
 
 
 def search(ctx, res):
